@@ -54,6 +54,10 @@ type ChainCfg struct {
 	RF      []FSpec `json:"route_filters"`
 	SF2     []FSpec `json:"service2_filters,omitempty"`
 	RF2     []FSpec `json:"route2_filters,omitempty"`
+	// Twin: the first service has a second GET /data/{id} route that produces application/xml, with as
+	// many route filters as the first one (other filters): (method, path) does not identify a route
+	Twin bool    `json:"twin_route_other_representation,omitempty"`
+	RFT  []FSpec `json:"twin_route_filters,omitempty"`
 	Preempt int     `json:"preempt_permille"`
 }
 
@@ -328,7 +332,7 @@ func (e *chainEnv) routeFunc(req *restful.Request, resp *restful.Response) {
 
 func attrString(req *restful.Request, cfg *ChainCfg) string {
 	var parts []string
-	for _, fs := range [][]FSpec{cfg.CF, cfg.SF, cfg.RF, cfg.SF2, cfg.RF2} {
+	for _, fs := range [][]FSpec{cfg.CF, cfg.SF, cfg.RF, cfg.RFT, cfg.SF2, cfg.RF2} {
 		for _, f := range fs {
 			if f.Kind == "attr" {
 				if v := req.Attribute("a-" + f.tag); v != nil {
@@ -369,6 +373,7 @@ func (e *chainEnv) build(encOff bool) (c *restful.Container, outer *restful.Cont
 	tagFilters(cfg.RF, "r")
 	tagFilters(cfg.SF2, "t")
 	tagFilters(cfg.RF2, "q")
+	tagFilters(cfg.RFT, "x")
 	c = restful.NewContainer()
 	if cfg.Router == "jsr311" {
 		c.Router(restful.RouterJSR311{})
@@ -465,6 +470,11 @@ func (e *chainEnv) build(encOff bool) (c *restful.Container, outer *restful.Cont
 		ws.Route(mk(ws.GET("/data/{id}")))
 		ws.Route(mk(ws.POST("/post").Consumes("application/json")))
 	}
+	if cfg.Twin {
+		rfs = cfg.RFT
+		ws.Route(mk(ws.GET("/data/{id}").Produces("application/xml")))
+		rfs = cfg.RF
+	}
 	c.Add(ws)
 	if cfg.RouteEncLate != 0 && !encOff {
 		// the other documented way to set the override: on the registered route itself
@@ -525,6 +535,9 @@ func (r *ChainReq) httpReq(t *sim.Task) *http.Request {
 		return NewReq("GET", fmt.Sprintf("/svc/data/tok%d", r.ID), hdr, nil, 0, r.ID)
 	case "route2":
 		return NewReq("GET", fmt.Sprintf("/svc2/data/tok%d", r.ID), hdr, nil, 0, r.ID)
+	case "twin":
+		hdr["Accept"] = "application/xml"
+		return NewReq("GET", fmt.Sprintf("/svc/data/tok%d", r.ID), hdr, nil, 0, r.ID)
 	case "post":
 		hdr["Content-Type"] = "application/json"
 		data := []byte(fmt.Sprintf(`{"Tok":"tok%d"}`, r.ID))
@@ -565,6 +578,10 @@ func (cfg *ChainCfg) filtersFor(target string) []FSpec {
 		fs = append(fs, cfg.CF...)
 		fs = append(fs, cfg.SF2...)
 		fs = append(fs, cfg.RF2...)
+	case "twin":
+		fs = append(fs, cfg.CF...)
+		fs = append(fs, cfg.SF...)
+		fs = append(fs, cfg.RFT...)
 	case "notfound", "badmethod", "notacceptable", "unsupported", "plainf":
 		fs = append(fs, cfg.CF...)
 	case "muxnotfound":
@@ -577,7 +594,7 @@ func (cfg *ChainCfg) filtersFor(target string) []FSpec {
 
 func targetEvent(cfg *ChainCfg, target string) string {
 	switch target {
-	case "route", "post", "route2":
+	case "route", "post", "route2", "twin":
 		return "handler"
 	case "plain", "plainf":
 		if cfg.Entry == "Dispatch" {
@@ -772,7 +789,17 @@ func genChainCfg(tp *sim.Tape, k chainKnobs) *ChainCfg {
 		cfg.WarmSF = tp.G(len(cfg.SF) + 1)
 		cfg.WarmSF2 = tp.G(len(cfg.SF2) + 1)
 	}
+	if !cfg.ReuseBuilder && tp.Chance(250) {
+		cfg.Twin = true
+		cfg.RFT = append([]FSpec{}, cfg.RF...)
+		tagFilters(cfg.RFT, "x")
+	}
 	return cfg
+}
+
+// isRouted: the request reaches a route function (unless a filter stops it).
+func isRouted(target string) bool {
+	return target == "route" || target == "post" || target == "route2" || target == "twin"
 }
 
 var chainAEs = []string{"gzip", "deflate", "", "gzip, deflate", "deflate, gzip", "identity", "br", "gzip;q=0", "GZIP", "x-gzip, deflate;q=0.5"}
@@ -788,6 +815,9 @@ func genChainReq(tp *sim.Tape, cfg *ChainCfg, k chainKnobs, id int) *ChainReq {
 	}
 	if k.twoServices {
 		targets = append(targets, "route2", "route2")
+	}
+	if cfg.Twin {
+		targets = append(targets, "twin", "twin")
 	}
 	r.Target = targets[tp.G(len(targets))]
 	if k.encoding {
